@@ -283,15 +283,26 @@ func runC13(p *core.Program, r *core.Report) {
 			default:
 				// bound to a variable that gets SetLocation
 				okLoc, why := false, "nested in the replacement without a location"
-				ast.Inspect(s.Func.Body, func(n ast.Node) bool {
+				// a literal read out of a builder (closure or helper of the package) is located
+				// where the builder locates it
+				orig, home := cl, s.Func
+				if o, ok := eng.SubstOrigin[cl].(*ast.CompositeLit); ok {
+					orig = o
+					for _, hfd := range p.FuncDecls(s.Rel) {
+						if hfd.Body != nil && hfd.Body.Pos() <= o.Pos() && o.End() <= hfd.Body.End() {
+							home = hfd
+						}
+					}
+				}
+				ast.Inspect(home.Body, func(n ast.Node) bool {
 					as, ok := n.(*ast.AssignStmt)
 					if !ok || len(as.Lhs) != len(as.Rhs) {
 						return true
 					}
 					for j := range as.Rhs {
-						if c2, _ := nodeLit(nk, info, as.Rhs[j]); c2 == cl {
+						if c2, _ := nodeLit(nk, info, as.Rhs[j]); c2 == orig {
 							if id, ok := as.Lhs[j].(*ast.Ident); ok {
-								okLoc, why = locatedAfter(info, s.Func, as, objOf(info, id))
+								okLoc, why = locatedAfter(info, home, as, objOf(info, id))
 							}
 						}
 					}
@@ -637,7 +648,7 @@ func runC13(p *core.Program, r *core.Report) {
 			why+", which is not the error located at the failing instruction and bound to this program's source: a panic value passed through keeps whatever position (or none) it carried")
 	}
 
-	r.Floor("R13.1", 25)
+	r.Floor("R13.1", 20)
 	r.Floor("R13.2", 19)
 	recorderRules(p, r, "", "R13.5")
 	lineBreakRule(p, r)
